@@ -31,7 +31,8 @@ def run(ctx):
     for name, variant in static[0]["bad"]:
         dd = [x for x in defs if x["name"] == name and x["variant"] == variant][0]
         docbad = [(l["name"], l["documentedbad"]) for l in dd["levels"] if l.get("documentedbad")]
-        why = "does-not-load" if not dd["loads"] else ("variant-merge" if not dd["mergeok"] else ("typical-prompt-rejected:" + docbad[0][0] if docbad else "ill-formed"))
+        why = "does-not-load" if not dd["loads"] else ("variant-merge" if not dd["mergeok"] else ("typical-prompt-rejected:" + docbad[0][0] if docbad else
+                                                        ("unknown-key:" + dd["unknownkeys"][0] if dd.get("unknownkeys") else "ill-formed")))
         ctx.violation("C17:%s%s:%s" % (name, "/" + variant if variant else "", why),
                       "Platform.tla WellFormed fails for %s %s: %s %s %s" % (name, variant, dd.get("loaderror", ""), dd.get("mergediff", ""), docbad),
                       {"name": name, "variant": variant, "pairs": []})
@@ -52,6 +53,15 @@ def run(ctx):
                 ok_pairs.append([a, b])
             else:
                 order_dependent.append({"name": dd["name"], "variant": dd["variant"], "start": a, "target": b, "outcomes": sorted(outs)})
+        # levels that cannot be entered through the driver (no escalate command): the device is put there by hand and every
+        # level that can be entered must be reachable from there (the way out is the de-escalate command)
+        names = [l["name"] for l in dd["levels"]]
+        for l in dd["levels"]:
+            if l.get("escalate", "") == "" and l.get("previous"):
+                for t in names:
+                    tl = [x for x in dd["levels"] if x["name"] == t][0]
+                    if t != l["name"] and (tl.get("escalate") or not tl.get("previous")) and [t, t] in ok_pairs:
+                        ok_pairs.append([l["name"], t])
         scns.append({"name": dd["name"], "variant": dd["variant"], "pairs": ok_pairs})
     ctx.notes["pairs_whose_outcome_depends_on_map_order_in_the_model"] = order_dependent
     ctx.notes["definitions"] = len(defs)
